@@ -329,4 +329,12 @@ theorem allSome_spec {α} : ∀ (l : List (Option α)) (r : List α), allSome l 
     | zero => simpa using hx
     | succ i => simpa using hi i x (by simpa using hx)
 
+theorem allSome_eq_map {α} : ∀ (l : List (Option α)) (r : List α), allSome l = some r → l = r.map some
+  | [], r, h => by simp only [allSome, Option.some.injEq] at h; subst h; rfl
+  | none :: _, _, h => by simp [allSome] at h
+  | some a :: l, r, h => by
+    simp only [allSome, Option.map_eq_some_iff] at h
+    obtain ⟨r', hr', rfl⟩ := h
+    simp [allSome_eq_map l r' hr']
+
 end Octo.Files
